@@ -256,7 +256,12 @@ def t_fold(facts, res, tier):
     def plain_arith(node, closures=None):
         return _pa(node, closures, _ah)
     n = 0
-    for fname in ("generate_arithm", "generate_shift", "generate_condition"):
+    # the comparison table is in the function(s) with the `immediate_special` parameter
+    cond_fns = sorted(f["name"] for f in facts.fns if any(p.get("name") == "immediate_special" for p in f["params"]))
+    if not cond_fns:
+        raise AnchorMissing("no function with an `immediate_special` parameter")
+    cond_arms = 0
+    for fname in ["generate_arithm", "generate_shift"] + cond_fns:
         fn = facts.fn(fname, "GeneratorState")
         for m in walk(fn["body"]):
             if m.get("k") != "match":
@@ -277,6 +282,8 @@ def t_fold(facts, res, tier):
                 if not mm:
                     continue
                 n += 1
+                if kind == "cond":
+                    cond_arms += 1
                 a, op, b = mm.group(1), mm.group(2), mm.group(3)
                 key = "T-FOLD:%s:%s" % (fname, opn)
                 res.inst(key, True, {"function": fname, "operation": opn, "folds_as": "%s %s %s" % (a, op, b)})
@@ -286,6 +293,8 @@ def t_fold(facts, res, tier):
                     res.fail(key, facts.where(fn, arm["body"]), "%s folds Operation::%s using the same operand twice" % (fname, opn))
                 if kind == "cond" and mm.group(4) != mm.group(5):
                     res.fail(key, facts.where(fn, arm["body"]), "%s: folded comparison does not return `!negate` / `negate` consistently" % fname)
+    if cond_arms < 6:
+        raise AnchorMissing("the compile-time table of the six comparisons (immediate_special) was found with %d arms only" % cond_arms)
     # inside an arm that has both operands as constants, every folded value is computed from both of them
     for fname in ("generate_arithm", "generate_shift"):
         fn = facts.fn(fname, "GeneratorState")
